@@ -81,6 +81,9 @@ func c08Layouts() []c08Layout {
 		{name: "enc-empty-cert", kds: []c08KD{{use: "encryption", cert: ""}}, dontCare: true},
 		{name: "enc-empty-cert+nouse", kds: []c08KD{{use: "encryption", cert: ""}, {use: "", cert: sp}}, advertises: true, decryptors: []string{"sp2048"}},
 		{name: "nouse-empty", kds: []c08KD{{use: "", cert: ""}}, dontCare: true},
+		{name: "nouse-empty+nouse", kds: []c08KD{{use: "", cert: ""}, {use: "", cert: sp}}, advertises: true, decryptors: []string{"sp2048"}},
+		{name: "signing+nouse-empty+nouse", kds: []c08KD{{use: "signing", cert: other}, {use: "", cert: ""}, {use: "", cert: sp}}, advertises: true, decryptors: []string{"sp2048"}},
+		{name: "enc-empty+enc", kds: []c08KD{{use: "encryption", cert: ""}, {use: "encryption", cert: sp}}, advertises: true, decryptors: []string{"sp2048"}},
 	}
 }
 
@@ -585,6 +588,12 @@ func c08CheckEmitted(t *core.T, l c08Layout, sess *saml.Session, body []byte, dr
 	iv := data[:16]
 	if len(cek) < 16 {
 		fail("short-key", "content key of %d bytes", len(cek))
+	}
+	if bytes.Equal(cek, make([]byte, len(cek))) {
+		fail("degenerate-content-key", "the content-encryption key is all zero: anybody can read the assertion")
+	}
+	if bytes.Equal(iv, make([]byte, len(iv))) {
+		fail("degenerate-iv", "the IV is all zero")
 	}
 	if drawn != nil {
 		// provenance from xmlenc.RandReader is recorded as an outcome only: the statement asks for fresh keys and IVs,
